@@ -237,7 +237,7 @@ func genCliAlns(r *gen.Rand, k *cliCase) {
 	}
 	pool := []string{"s0", "s1", "s2", "s3", "s4", "s5", "s6"}
 	if r.Chance(0.4) {
-		pool = []string{"Seq0000", "seq0000", "A|b/c.1", "sp#7", "x_y", "GAP", "1a", "é", "s-1"}
+		pool = []string{"Seq0000", "seq0000", "A|b/c.1", "sp#7", "x_y", "GAP", "1a", "é", "s-1", "cov100%", "%d"}
 	}
 	for a := 0; a < na; a++ {
 		n := r.PickInt([]int{1, 2, 3, 3, 4, 5, 6})
